@@ -43,6 +43,8 @@ struct Q {
     wf: bool,
     /// for "valid set + added segments" cases: the valid subset (cores, non-cores)
     sub: Option<(Vec<S>, Vec<S>)>,
+    /// the reference paths must keep their relative order (false: peer indices were shifted)
+    sub_ordered: bool,
 }
 
 fn hopf(exp: u8, ing: u16, eg: u16, mac: [u8; 6]) -> SegmentHopField {
@@ -412,7 +414,7 @@ fn case_text(q: &Q, o: &Out) -> String {
             coq_list(q.cores.iter().map(c_seg)), coq_list(q.ncs.iter().map(c_seg)),
             coq_list(ids.iter().map(|b| dec(b))), coq_bool(q.wf), coq_bool(o.panic), coq_bool(o.stable),
             coq_list(o.paths.iter().map(|p| p.text.clone())), coq_bytes(&o.bytes0),
-            coq_bool(o.sub.is_some()),
+            if o.sub.is_none() { 0 } else if q.sub_ordered { 1 } else { 2 },
             coq_list(o.sub.as_ref().map(|v| v.iter().map(|p| p.text.clone()).collect::<Vec<_>>()).unwrap_or_default()))
 }
 
@@ -463,7 +465,7 @@ fn topo_query(t: &Topo, src: u64, dst: u64, variant: u64, rng: &mut Rng) -> Q {
     }
     if variant >= 1 { rng.shuffle(&mut cores); rng.shuffle(&mut ncs); }
     Q { stream: stream.into(), desc: format!("{}/{}", t.name, vname), src, dst, cores, ncs,
-        ases: t.ases.iter().map(|a| a.0).collect(), wf, sub: None }
+        ases: t.ases.iter().map(|a| a.0).collect(), wf, sub: None, sub_ordered: true }
 }
 
 fn all_pairs(t: &Topo) -> Vec<(u64, u64)> {
@@ -601,7 +603,7 @@ fn soup(rng: &mut Rng, k: u64) -> Q {
     }
     let src = *rng.pick(&ases);
     let dst = *rng.pick(&ases);
-    Q { stream: "soup".into(), desc: format!("soup/{}as", na), src, dst, cores, ncs, ases, wf: false, sub: None }
+    Q { stream: "soup".into(), desc: format!("soup/{}as", na), src, dst, cores, ncs, ases, wf: false, sub: None, sub_ordered: true }
 }
 
 fn chain(rng: &mut Rng, first: u64, isd: u64, base: u64, n: usize) -> Vec<AsEntry> {
@@ -619,7 +621,7 @@ fn directed(rng: &mut Rng) -> Vec<Q> {
     let (a, b, c, d) = (ia(1, 1), ia(1, 2), ia(1, 3), ia(1, 4));
     let mut v: Vec<Q> = vec![];
     let mut push = |name: &str, src: u64, dst: u64, cores: Vec<S>, ncs: Vec<S>| {
-        v.push(Q { stream: "directed".into(), desc: name.into(), src, dst, cores, ncs, ases: vec![a, b, c, d], wf: false, sub: None });
+        v.push(Q { stream: "directed".into(), desc: name.into(), src, dst, cores, ncs, ases: vec![a, b, c, d], wf: false, sub: None, sub_ordered: true });
     };
     let sg = |e: Vec<AsEntry>| S { ts: TS0, sid: 0x1234, e };
     // d0 / d1: all interface ids zero
@@ -763,6 +765,9 @@ fn junk_peer(rng: &mut Rng, e: &AsEntry, u: Option<&PeerEntry>, kind: &str, salt
 /// give AS entries 2..=4 peer entries; `only_wf`: only entries that keep the set well-formed.
 /// Returns (description, still well-formed)
 fn multipeer(q: &mut Q, rng: &mut Rng, only_wf: bool) -> (String, bool) {
+    // metamorphic reference: the paths of the set without the added peer entries must survive
+    q.sub = Some((q.cores.clone(), q.ncs.clone()));
+    q.sub_ordered = false;
     let mut wf = true;
     let mut names: Vec<String> = vec![];
     for s in q.ncs.iter_mut() {
@@ -836,7 +841,7 @@ fn directed_multipeer(rng: &mut Rng) -> Vec<Q> {
                     if (ki + oi + side as usize) % 3 != ["through", "on_peers", "mixed"].iter().position(|r| *r == rq).unwrap() { continue; }
                     v.push(Q { stream: "directed".into(), desc: format!("d13:multipeer_{kind}_{oname}_{sname}_{rq}"), src, dst,
                                cores: vec![], ncs: vec![up.clone(), down.clone(), upx.clone(), downy.clone()],
-                               ases: vec![c, x, y, gx, gy], wf: false, sub: None });
+                               ases: vec![c, x, y, gx, gy], wf: false, sub: None, sub_ordered: true });
                 }
             }
         }
